@@ -1,0 +1,32 @@
+//go:build verif
+
+package bridgesync
+
+import (
+	"database/sql"
+
+	"github.com/agglayer/aggkit/bridgesync/migrations"
+	"github.com/agglayer/aggkit/db"
+	"github.com/agglayer/aggkit/db/compatibility"
+	"github.com/agglayer/aggkit/log"
+	"github.com/agglayer/aggkit/sync"
+	"github.com/agglayer/aggkit/tree"
+)
+
+// VerifNewBridgeSyncWithDB is VerifNewBridgeSync on a caller-supplied database handle (opened by
+// the harness through a fault-injecting database/sql driver on the same SQLite file).
+func VerifNewBridgeSyncWithDB(dbPath, name string, originNetwork uint32, database *sql.DB) (*BridgeSync, error) {
+	if err := migrations.RunMigrations(dbPath); err != nil {
+		return nil, err
+	}
+	p := &processor{
+		db:       database,
+		exitTree: tree.NewAppendOnlyTree(database, ""),
+		log:      log.WithFields("module", name),
+		CompatibilityDataStorager: compatibility.NewKeyValueToCompatibilityStorage[sync.RuntimeData](
+			db.NewKeyValueStorage(database),
+			name,
+		),
+	}
+	return &BridgeSync{processor: p, originNetwork: originNetwork}, nil
+}
